@@ -606,10 +606,9 @@ def run_poly(case, ctx, tv, rng):
             s = float(np.round(rng.uniform(-4, 12), int(rng.integers(0, 4))))
             if rng.random() < 0.3:
                 s = float(rng.normal() * 3)
-        if power == 0 and float(s) == int(s) and s <= 0:
-            # 0^0 is a convention, not part of the statement: keep the base
-            # away from zero for power 0
-            s = abs(s) + 1
+        # power 0 with a zero base (index + shift == 0): x^0 is the constant
+        # polynomial 1 - also what IEEE-754 pow, Python and NumPy return for
+        # 0^0 and what the exact rational reference below computes
         return s
 
     if kind == 'float':
